@@ -154,6 +154,63 @@ impl Monitor {
         }
     }
 
+    /// Monitor for an exploration that starts in a restored server: what the journal records
+    /// (outcomes, dependencies, failure and crash counts, instance ids, limits) is what the
+    /// monitors would know had they watched the run that wrote it.
+    pub fn new_restored(props: &[Prop], r: &crate::journal::RefState) -> Self {
+        let mut m = Monitor::new(props);
+        for (jid, j) in &r.jobs {
+            let known = m.s.known_tasks_per_job.entry(*jid).or_default();
+            known.extend(j.tasks.keys().copied());
+            m.s.max_fails.insert(*jid, j.max_fails);
+            if let Some(cl) = &j.crash_limit {
+                m.s.crash_limit.insert(*jid, cl.clone());
+            }
+            // (a job whose last outcome was recorded but whose JobCompleted record was cut off by
+            // the crash: its completion was due before the restart; C13 does not quantify over
+            // crash points, the restart is not expected to report it again)
+            let all_terminal = !j.tasks.is_empty() && j.tasks.values().all(|t| crate::journal::terminal(t.status));
+            if j.completed || (!j.open && all_terminal) {
+                m.s.completed_seen.insert(*jid, 1);
+            }
+            if j.cancel_seen {
+                m.s.jobs_cancel_requested.insert(*jid);
+            }
+            let mut n_failed = 0;
+            for (t, rt) in &j.tasks {
+                let id = tid(*jid, *t);
+                let st = match rt.status {
+                    "finished" => TStatus::Finished,
+                    "failed" => TStatus::Failed,
+                    "canceled" => TStatus::Canceled,
+                    "aborted" => TStatus::Aborted,
+                    // waiting, or running when the server stopped: the restart runs it again
+                    _ => TStatus::None,
+                };
+                if st == TStatus::Failed {
+                    n_failed += 1;
+                }
+                m.s.st.insert(id, st);
+                m.s.deps.insert(id, rt.deps.iter().map(|d| tid(*jid, *d)).collect());
+                for d in &rt.deps_bad_at_submit {
+                    m.s.dep_bad_at_submit.insert((id, tid(*jid, *d)));
+                }
+                let tm = m.s.tasks.entry(id).or_default();
+                tm.last_instance = rt.max_instance;
+                tm.crash_ref = rt.crash_root;
+            }
+            m.s.n_failed.insert(*jid, n_failed);
+            if let Some(limit) = j.max_fails
+                && n_failed > limit
+            {
+                m.s.max_fails_tripped.insert(*jid);
+                // the tasks that existed at that moment are all terminal in a consistent journal;
+                // which ones existed is not recorded, so no obligation is carried over
+            }
+        }
+        m
+    }
+
     pub fn on(&self, p: Prop) -> bool {
         self.props.contains(&p)
     }
